@@ -136,8 +136,12 @@ def cse_grammar(rnd, n):
     out = []
     for k in range(n):
         iv = [rnd.choice([1, 2, 3, 5, 10, -3, 2.5]) for _ in range(4)]
-        kind = k % 6
-        if kind == 4:     # two un-calculated formula cells chained below an array formula that must be fitted to its range
+        kind = k % 7
+        if kind == 6:     # adjacent array formulas whose texts start alike (or are equal), a range spanning them
+            out.append(WB({'C1': iv[0], 'C2': iv[1]},
+                          {'E1': '=SUM(A1:A4)', 'E2': '=COUNT(A1:A6)', 'G1': '=E1*0+A4', 'G2': '=A4+E1*0'}, 'cse-adjacent',
+                          {'A1': ('A1:A2', '=C1:C2*2'), 'A3': ('A3:A4', '=C1:C2*25'), 'A5': ('A5:A6', '=C1:C2*2')}))
+        elif kind == 4:     # two un-calculated formula cells chained below an array formula that must be fitted to its range
             out.append(WB({'A1': iv[0], 'A2': iv[1], 'A3': iv[2]},
                           {'B1': '=A1*2', 'C1': '=B1+1', 'C2': '=IFERROR(B1/(A2-A2),7)', 'G1': '=SUM(E1:E3)'}, 'cse-deep',
                           {'E1': ('E1:E3', '=SUM(A1:A3)+C1'), 'F1': ('F1:F3', '=IFERROR(C2/(A1:A3-A1),-1)')}))
